@@ -7,6 +7,8 @@ import sys
 sys.path.insert(0, os.path.dirname(os.path.abspath(__file__)))
 import vlib
 
+import subprocess
+subprocess.run([sys.executable, os.path.join(os.path.dirname(os.path.abspath(__file__)), "tables_from_source.py")])
 ok, out = vlib.coq_make([], timeout=3400)
 print(out[-3000:])
 if not ok:
@@ -16,4 +18,11 @@ try:
     print("setup: macro hook built")
 except Exception as e:  # not fatal: each check rebuilds what it needs
     print("setup: macro hook: %s" % e)
+try:
+    import harness
+    harness.rt(False)
+    harness.rt(True)
+    print("setup: rt harnesses built")
+except Exception as e:
+    print("setup: rt harness: %s" % e)
 sys.exit(0)
